@@ -46,6 +46,13 @@ Theorem C07_get_seg_spec_refuted_degenerate_closepath :
     get_seg els i = Some (SegLine (mkLine wb wa)) /\ nth i outs None = None.
 Proof. exact get_seg_spec_refuted_degenerate_closepath_R. Qed.
 
+(** ... and nowhere else: away from a ClosePath (as the element itself or as its predecessor) the
+    pinned code already returns what [segments] emits *)
+Theorem C07_get_seg_pinned_partial : forall (els : list El) (i : nat),
+  nth_error els (i - 1) <> Some ClosePath -> nth_error els i <> Some ClosePath ->
+  get_seg els i = get_seg_req els i.
+Proof. exact (@get_seg_agrees_off_corners R _). Qed.
+
 (** ** 2. ClosePath contributes the closing line exactly when the sub-path is not at its start
     [cur_start pre] = point of the last MoveTo of the prefix, [cur_point pre] = where its last
     element ends. *)
